@@ -972,7 +972,7 @@ def m_bytearray(interp, fr, *args):
 
 
 def m_enumerate(interp, fr, it, start=0):
-    if isinstance(it, Sym):
+    if isinstance(it, Sym) and not isinstance(it, SBytes):
         raise Undecided("enumerate over a symbolic iterable")
     return list(enumerate(interp.iterate(it), start))
 
@@ -1125,10 +1125,57 @@ def m_divmod(interp, fr, a, b):
     return (interp.binop(ast.FloorDiv(), a, b), interp.binop(ast.Mod(), a, b))
 
 
+def m_is_dataclass(interp, fr, obj):
+    import dataclasses as _dc
+    if isinstance(obj, SOpt):
+        obj = resolve_opt(interp.ctx, obj)
+    if isinstance(obj, SRec):
+        return _dc.is_dataclass(obj.cls)
+    if isinstance(obj, Sym):
+        return False            # symbolic ints, strings, bytes, sequences, opaque scalars are not dataclass instances
+    return _dc.is_dataclass(obj)
+
+
+def _astuple(interp, v):
+    import dataclasses as _dc
+    if isinstance(v, SOpt):
+        v = resolve_opt(interp.ctx, v)
+    if isinstance(v, SRec):
+        return tuple(_astuple(interp, v.fields[f.name]) for f in _dc.fields(v.cls))
+    if isinstance(v, SSeq):
+        if isinstance(v.n, int) or not isinstance(v.n, Sym) and not z3.is_expr(v.n):
+            return tuple(_astuple(interp, v.item(i)) for i in range(int(v.n)))
+        raise Undecided("dataclasses.astuple over a sequence of symbolic length")
+    if isinstance(v, (tuple, list)) and not isinstance(v, Sym):
+        return type(v)(_astuple(interp, x) for x in v)
+    if not isinstance(v, Sym) and _dc.is_dataclass(v) and not isinstance(v, type):
+        return tuple(_astuple(interp, getattr(v, f.name)) for f in _dc.fields(v))
+    return v
+
+
+def m_astuple(interp, fr, obj, **kw):
+    import dataclasses as _dc
+    if kw:
+        raise Undecided("dataclasses.astuple(tuple_factory=...)")
+    if isinstance(obj, SOpt):
+        obj = resolve_opt(interp.ctx, obj)
+    if not isinstance(obj, Sym):
+        try:
+            return _dc.astuple(obj)
+        except TypeError as ex:
+            raise PyRaise(TypeError, str(ex))
+    if not isinstance(obj, SRec):
+        raise PyRaise(TypeError, "astuple() should be called on dataclass instances")
+    return _astuple(interp, obj)
+
+
 def base_models():
     import builtins
     import contextlib as _ctx
+    import dataclasses as _dc
     m = {
+        _dc.is_dataclass: m_is_dataclass,
+        _dc.astuple: m_astuple,
         len: m_len,
         isinstance: m_isinstance,
         getattr: m_getattr,
